@@ -52,7 +52,9 @@ RULE = ("Hypothesis draws small TT-tensors (d 2..4, mode sizes 1..4(5), ranks up
         "kind and m in 1..40, the very rows the float64 copy gives; non-trivial = d >= 3, a typed core before the last one, rank >= 2.  "
         "`grid` / `sample_tt` also get the shape as int32 / int16 / uint8 arrays.  SCALE-FREE CONDITIONALS: (a) `long_chains`: d 12..40 (64), "
         "modes 2..4, ranks 1..2 (product / two-component mixture / dense / peaked / sparse non-negative cores) normalised to total mass 1 "
-        "(also 0.5, 3, 7.25, 1e-3, 1e3; optionally times 2**+-20..100) so that prefix marginals decay to 1e-12 .. 1e-30 and below; 2..4 target "
+        "(also 0.5, 3, 7.25, 1e-3, 1e3; optionally times 2**+-20..100) so that prefix marginals decay to 1e-12 .. 1e-30 and below; for `sample` "
+        "in 3 of 6 cases instead integer-stored count cores (int64 / int32, entries 0..1 or 0..3, unnormalised: the sum of the tensor and single "
+        "entries pass 2**63, labels counts_*; non-trivial then = one of them does); 2..4 target "
         "rows per case (drawn from the distribution, uniform, greedily most / least likely) are forced through `sample` (unsert 0 and "
         "default / 1e-10 / 1e-6 / 1e-14) resp. `sample_square` (cores with a random sign per mode slice), and an ordinary call (m 1..5, real "
         "Generator, recorded) is audited: EVERY probability vector handed to the generator, the late modes included, is compared with the "
@@ -815,6 +817,14 @@ def long_cases(draw, tier):
             "kind": draw(st.sampled_from(SEED_KINDS[2:])), "cseed": draw(gen.seeds), "default_unsert": draw(st.booleans())}
     if which == "sample":
         case["overall"] = draw(overall_scales(d, none_weight=3))
+        # integer-stored cores (small counts): the sum of the tensor and the partial products along a multi-index leave the int64
+        # range after some twenty modes while every float64 quantity the sampler needs stays ordinary
+        case["store"] = draw(st.sampled_from([None, None, None, "int64", "int64", "int32"]))
+        if case["store"] is not None:
+            case["fam"], case["overall"], case["mass"] = "counts", None, 1.0
+            case["hi"] = draw(st.sampled_from([1, 3, 3]))
+            if draw(st.booleans()):
+                case["r"] = [1] + [2] * (d - 1) + [1]
     return case
 
 
@@ -827,6 +837,12 @@ def build_long(case):
     d = len(n)
     rng = np.random.default_rng(case["seed"])
     Y = []
+    if fam == "counts":
+        for k in range(d):
+            G = rng.integers(0, case["hi"] + 1, size=(r[k], n[k], r[k + 1]))
+            G[0, 0, 0] = max(1, int(G[0, 0, 0]))        # a strictly positive path: the tensor is not zero
+            Y.append(G.astype(case["store"]))
+        return Y
     for k in range(d):
         sh = (r[k], n[k], r[k + 1])
         if fam == "mixture":
@@ -867,7 +883,7 @@ class LongRef:
     non-negative up to a sign per mode slice (`sample_square`), computed from the cores in non-negative arithmetic."""
 
     def __init__(self, Y, square):
-        self.A = [np.abs(G) for G in Y]
+        self.A = [np.abs(np.asarray(G, dtype=float)) for G in Y]
         self.square = square
         d = self.d = len(Y)
         self.right = [None] * (d + 1)
@@ -1005,6 +1021,12 @@ def prop_long_chains(case, ctx):
     worst = [1.0]                                   # smallest prefix marginal (absolute for `sample`) whose conditional was audited
     rng = np.random.default_rng(case["tseed"])
     rows = [lref.draw_row(kind, rng) for kind in case["targets"]]
+    counts_big = False
+    if case.get("store"):
+        path = max(float(lref.conditionals(row)[-1][1]) * lref.total for row in rows)      # value of the tensor at a target row
+        counts_big = lref.total >= 2.0 ** 63 or path >= 2.0 ** 63
+        ctx.label("store:" + case["store"], "counts_total>=2^63" if lref.total >= 2.0 ** 63 else "counts_total<2^63",
+                  "counts_entry>=2^63" if path >= 2.0 ** 63 else "counts_entry<2^63")
     ctx.label(*("target:" + t for t in case["targets"]))
     done = 0
     with np.errstate(all="ignore"):
@@ -1047,7 +1069,7 @@ def prop_long_chains(case, ctx):
         if worst[0] <= t:
             ctx.label(f"audited_prefix_marginal<={t:g}")
     ctx.inner(max(0, done - 1))
-    ctx.nontrivial(done > 0 and worst[0] <= 1e-12)
+    ctx.nontrivial(done > 0 and (worst[0] <= 1e-12 or counts_big))
 
 
 # =========================================================================================== histories: the tensor as it is NOW
